@@ -139,7 +139,12 @@ def sites_of(rel, src_full):
         # the `let x =` this read feeds (looking back over closures)
         back = src[max(0, m.start() - 400):m.start()]
         lets = re.findall(r"let\s+(?:mut\s+)?(\w+)\s*(?::[^=]+)?=", back)
-        out.append({"file": rel, "line": line, "fn": fname, "callee": callee, "handler": handler_of(chain),
+        handler = handler_of(chain)
+        # `let Ok(x) = <read> else { continue; };` — a failed read skips this file (loses its attribution): an `Option`
+        if not chain and re.search(r"let\s+Ok\s*\(\s*\w+\s*\)\s*=\s*[\w.\s]*$", src[max(0, m.start() - 120):m.start()]) \
+                and re.match(r"\s*else\s*\{\s*continue\s*;\s*\}", src[close + 1:close + 60]):
+            handler, chain = "option", [("let-else-continue", "")]
+        out.append({"file": rel, "line": line, "fn": fname, "callee": callee, "handler": handler,
                     "let": lets[-1] if lets else None, "chain": [c[0] for c in chain]})
     return out
 
@@ -159,6 +164,10 @@ def role_of(s):
             return "vaInitial"
         if f.endswith("authorship/rebase_authorship.rs"):
             return "rebaseCarry"
+    # /repo b97387e6: lines an agent's checkpoint recorded while a rebase / cherry-pick was stopped, carried over to the
+    # continued commit through the entry's snapshot (post-rewrite path; not the commit path of Model/Snapshot.lean)
+    if f.endswith("authorship/rebase_authorship.rs") and fn == "credit_lines_recorded_while_stopped" and callee == "get_file_version":
+        return "rebaseStopped"
     return "unknown"
 
 
@@ -222,7 +231,7 @@ def main():
          "import GitAiModel.Model.Snapshot", "namespace GitAi.Extracted.SnapshotReads", "open GitAi.Snapshot", "",
          "/-- the modelled read sites -/",
          "inductive Role where",
-         "  | ckptPrevious | ckptHumanOnly | ckptInitialSnapshot | initialSnapshotFn | initialValidate | vaInitial | rebaseCarry | unknown",
+         "  | ckptPrevious | ckptHumanOnly | ckptInitialSnapshot | initialSnapshotFn | initialValidate | vaInitial | rebaseCarry | rebaseStopped | unknown",
          "  deriving DecidableEq, Repr", "",
          "/-- what the caller does with a failed read: `\"\"`, the current content, an `Option` (`.ok()`), a test (`.is_err()`), `?`, other -/",
          "inductive Handler where", "  | empty | current | option | probe | propagate | other", "  deriving DecidableEq, Repr", "",
